@@ -286,6 +286,12 @@ impl Geom {
     pub fn root_bytes(&self) -> u64 {
         self.raw.root_ent_cnt as u64 * 32
     }
+    /// Slots of the fixed root directory as a lenient reader sees them: the declared count rounded up to whole
+    /// sectors. The specification asks for a count that fills whole sectors; where it does not, the tail of the
+    /// last root sector belongs to nothing else, and this library (like others) uses it.
+    pub fn root_slots(&self) -> usize {
+        (self.root_dir_sectors * self.bps / 32) as usize
+    }
     pub fn data_off(&self) -> u64 {
         self.first_data_sector * self.bps
     }
@@ -841,7 +847,7 @@ impl<'a> Walker<'a> {
         match loc {
             DirLoc::FixedRoot => {
                 let base = self.g.root_off();
-                let n = self.g.raw.root_ent_cnt as usize;
+                let n = self.g.root_slots();
                 let buf = rdv(self.img, base, n * 32);
                 for i in 0..n {
                     let mut raw = [0u8; 32];
